@@ -123,7 +123,7 @@ Apply(a, o, r) ==
 Post(J, a2, r) ==
   FirstFail(<< <<r.seen = {b.id : b \in a2.blocks}, "harness-live-set-mismatch">>,
                <<r.bad = {}, "live-block-corrupted">>,
-               <<\A b \in a2.blocks : b.end <= r.commit, "live-block-not-committed">>,
+               <<\A b \in a2.blocks : b.beg < b.end => b.end <= r.commit, "live-block-not-committed">>,
                <<\A b1, b2 \in a2.blocks : b1.id # b2.id => ~Overlap(b1.beg, b1.end, b2.beg, b2.end), "live-blocks-overlap">> >>)
 
 AbsInv(J, a) ==
@@ -275,8 +275,8 @@ Spec == Init /\ [][Next]_vars
 
 (* invariants of the refinement *)
 Shape == /\ 0 <= offset /\ offset <= commit /\ commit <= cap /\ commit % Chunk = 0
-BlocksInBounds == \A i \in DOMAIN blocks : /\ 0 <= blocks[i].beg /\ blocks[i].beg <= blocks[i].end /\ blocks[i].end <= commit
-                                            /\ (blocks[i].beg < blocks[i].end => blocks[i].end <= offset)
+BlocksInBounds == \A i \in DOMAIN blocks : /\ 0 <= blocks[i].beg /\ blocks[i].beg <= blocks[i].end /\ blocks[i].end <= cap
+                                            /\ (blocks[i].beg < blocks[i].end => blocks[i].end <= offset /\ blocks[i].end <= commit)
 AddrAligned == \A i \in DOMAIN blocks : (bm + blocks[i].beg) % blocks[i].al = 0
 Disjoint == \A i, j \in DOMAIN blocks : i < j => ~Overlap(blocks[i].beg, blocks[i].end, blocks[j].beg, blocks[j].end)
 ContentsIntact == \A i \in DOMAIN blocks : blocks[i].ok
